@@ -9,6 +9,7 @@ func init() {
 			c.WhoWrites("C04")
 			c.LockerInternals("C04")
 			c.RulerKeyAgreement("C04")
+			c.SignerRefusalReasons("C04")
 			c.SigningRootProvenance("C04")
 			c.ScatterIndexDiscipline("C04")
 			c.ScatterPartition("C04")
